@@ -2482,6 +2482,128 @@ def _objects_to_closures(modname, tree, inv):
     return n_done
 
 
+# ------------------------------------------------------------------ N17 functions defined differently in the two arms of an `if`
+
+def _merge_conditional_defs(fn):
+    """`if c: def f(h): A  else: def f(h): B`  ->  `def f(h): if c: A else: B`   (an arm may also say `g = f` for a function of the same arm).
+    Only when c reads nothing but parameters of the enclosing function that are never re-bound (so deciding at call time is deciding
+    at definition time), both arms define exactly the same names with the same parameter lists, and nothing else binds those names."""
+    n_done = 0
+    params = {a.arg for a in fn.args.posonlyargs + fn.args.args + fn.args.kwonlyargs}
+    stored = {}
+    for x in _walk_local(fn):
+        if isinstance(x, ast.Name) and isinstance(x.ctx, (ast.Store, ast.Del)):
+            stored[x.id] = stored.get(x.id, 0) + 1
+    for blk in _blocks(fn):
+        for i, st in enumerate(blk):
+            if not isinstance(st, ast.If) or not st.orelse:
+                continue
+            if any(not isinstance(x, (ast.Name, ast.Constant, ast.Compare, ast.BoolOp, ast.UnaryOp, ast.boolop, ast.unaryop, ast.cmpop, ast.expr_context)) for x in ast.walk(st.test)):
+                continue
+            if any(isinstance(x, ast.Name) and (x.id not in params or x.id in stored) for x in ast.walk(st.test)):
+                continue
+
+            def arm(stmts):
+                out = {}
+                for s_ in stmts:
+                    if isinstance(s_, ast.FunctionDef) and not s_.decorator_list and not s_.args.defaults and not s_.args.vararg and not s_.args.kwarg and not s_.args.kwonlyargs:
+                        if s_.name in out:
+                            return None
+                        out[s_.name] = s_
+                    elif isinstance(s_, ast.Assign) and len(s_.targets) == 1 and isinstance(s_.targets[0], ast.Name) and isinstance(s_.value, ast.Name) and s_.value.id in out \
+                            and isinstance(out[s_.value.id], ast.FunctionDef) and s_.targets[0].id not in out:
+                        out[s_.targets[0].id] = ("alias", s_.value.id)
+                    elif isinstance(s_, ast.Pass) or (isinstance(s_, ast.Expr) and isinstance(s_.value, ast.Constant)):
+                        continue
+                    else:
+                        return None
+                return out
+            A, B = arm(st.body), arm(st.orelse)
+            if not A or not B or set(A) != set(B):
+                continue
+            # nothing else in the function binds these names (the two definitions / aliases are their only bindings)
+            n_bind = {}
+            for x in ast.walk(fn):
+                if isinstance(x, FUNC) and x is not fn and x.name in A:
+                    n_bind[x.name] = n_bind.get(x.name, 0) + 1
+                elif isinstance(x, ast.Name) and x.id in A and isinstance(x.ctx, (ast.Store, ast.Del)):
+                    n_bind[x.id] = n_bind.get(x.id, 0) + 1
+            if any(n_bind.get(nm, 0) != 2 for nm in A):
+                continue
+
+            def sig(nm, M):
+                d = M[nm]
+                if isinstance(d, tuple):
+                    d = M[d[1]]
+                return [a.arg for a in d.args.args]
+            if any(sig(nm, A) != sig(nm, B) for nm in A):
+                continue
+            merged = []
+            for nm in A:
+                proto = A[nm] if not isinstance(A[nm], tuple) else (B[nm] if not isinstance(B[nm], tuple) else A[A[nm][1]])
+                ps = sig(nm, A)
+
+                def body_of(M):
+                    d = M[nm]
+                    if isinstance(d, tuple):
+                        return [ast.Return(value=ast.Call(func=ast.Name(id=d[1], ctx=ast.Load()), args=[ast.Name(id=p_, ctx=ast.Load()) for p_ in ps], keywords=[]))]
+                    return [copy.deepcopy(s_) for s_ in d.body]
+                new = ast.FunctionDef(name=nm, args=copy.deepcopy(proto.args), decorator_list=[], returns=None, type_comment=None,
+                                      body=[ast.If(test=copy.deepcopy(st.test), body=body_of(A), orelse=body_of(B))])
+                if hasattr(proto, "type_params"):
+                    new.type_params = []
+                ast.copy_location(new, st)
+                ast.fix_missing_locations(new)
+                merged.append(new)
+            blk[i:i + 1] = merged
+            n_done += 1
+            break
+    return n_done
+
+
+def _fold_repeated_tests(fn, inherited=frozenset()):
+    """`if c: (if c: A else: B)` -> `if c: A` when c reads only parameters (of this function or of the functions around it) that are
+    never re-bound: its value cannot change in between"""
+    params = {a.arg for a in fn.args.posonlyargs + fn.args.args + fn.args.kwonlyargs}
+    stored = {x.id for x in _walk_local(fn) if isinstance(x, ast.Name) and isinstance(x.ctx, (ast.Store, ast.Del))}
+    if any(isinstance(x, (ast.Nonlocal, ast.Global)) for x in ast.walk(fn)):
+        return 0
+    good = ({p_ for p_ in params if p_ not in stored} | {x for x in inherited if x not in stored and x not in params})
+    n = 0
+
+    def stable(t):
+        return all(isinstance(x, (ast.Name, ast.Constant, ast.Compare, ast.BoolOp, ast.UnaryOp, ast.boolop, ast.unaryop, ast.cmpop, ast.expr_context)) for x in ast.walk(t)) and \
+            all(x.id in good for x in ast.walk(t) if isinstance(x, ast.Name))
+
+    def rec(stmts, known):
+        nonlocal n
+        out = []
+        for st in stmts:
+            if isinstance(st, ast.If) and stable(st.test):
+                key = ast.dump(st.test)
+                if key in known:
+                    out += rec(st.body if known[key] else st.orelse, known)
+                    n += 1
+                    continue
+                st.body = rec(st.body, {**known, key: True}) or [ast.copy_location(ast.Pass(), st)]
+                st.orelse = rec(st.orelse, {**known, key: False})
+            elif isinstance(st, FUNC):
+                n += _fold_repeated_tests(st, frozenset(good))
+            elif isinstance(st, ast.ClassDef):
+                pass
+            else:
+                for fld in ("body", "orelse", "finalbody"):
+                    sub = getattr(st, fld, None)
+                    if isinstance(sub, list) and sub and isinstance(sub[0], ast.stmt):
+                        setattr(st, fld, rec(sub, known))
+                for h in getattr(st, "handlers", []) or []:
+                    h.body = rec(h.body, known)
+            out.append(st)
+        return out
+    fn.body = rec(fn.body, {})
+    return n
+
+
 # ------------------------------------------------------------------ N7 nested ifs without else -> one conjunction
 
 def _merge_nested_ifs(fn):
@@ -2875,6 +2997,7 @@ def normalize(modname, tree):
     stats["context_managers"] = _rewrite_context_managers(modname, tree, inv)
     stats["devirtualised"] = _devirtualise(modname, tree, inv)
     stats["objects_to_closures"] = _objects_to_closures(modname, tree, inv)
+    stats["merged_defs"] = sum(_merge_conditional_defs(f_) for f_ in [x for x in ast.walk(tree) if isinstance(x, FUNC)])
     if inv is not None:
         stats["inlined"] = _Inliner(modname, tree, inv).run()
     stats["ifexp_expanded"] = 0
@@ -2928,6 +3051,13 @@ def normalize(modname, tree):
         stats["inlined"] += more
         if not more and not k3:
             break
+    def _outermost(body):
+        for x in body:
+            if isinstance(x, FUNC):
+                yield x
+            elif isinstance(x, ast.ClassDef):
+                yield from _outermost(x.body)
+    stats["repeated_tests"] = sum(_fold_repeated_tests(f_) for f_ in _outermost(tree.body))
     for n in ast.walk(tree):
         if isinstance(n, FUNC):
             stats["merged_ifs"] += _merge_nested_ifs(n)
